@@ -7,7 +7,7 @@ From KV Require Import Gen.Globals Gen.DeepCopy.
 Lemma globals_disciplined : globals_ok var_prots allow_list gen_accesses = true.
 Proof. vm_compute. reflexivity. Qed.
 
-Lemma globals_vars_covered : forallb (var_covered var_prots allow_list) gen_global_vars = true.
+Lemma globals_vars_covered : vars_ok var_prots allow_list gen_global_vars = true.
 Proof. vm_compute. reflexivity. Qed.
 
 (* the strict obligation (no known findings) still fails on the current tree: a reachable store clears the init
